@@ -85,7 +85,7 @@ CHECKS = {
          "Interleavings at lock-request/yield-point granularity under sequential consistency. Known findings excluded by construction and counted: KF-C10-1 (a Reader whose region was relocated while it was held: byte clause skipped for exactly those Readers) and KF-C12-1 (compact() overlapping a write that extends a region beyond its last valid page: that region is no longer content-checked).",
          "property-based schedule exploration with per-program reference models and a version-history oracle for held Readers (proptest + deterministic scheduler)", "DESIGN.md §4 C10, §3 E6"),
  "C06": ("E4-compute", "exploration",
-         "Differential property test over a table of 52 exact EagerVec methods: a generated history (initial fill; steps of redundant call / every source grows / every source is truncated at a generated index and regrown with different data; starting index drawn at and below the first changed source index; write-batch limit forced to 1, 3, 17 elements or default through hook H6; windows 0, 1, 2, 5, len-1, len, len+5, usize::MAX; optional flush + re-import) is applied to stored sources of the raw and the Pco family, and after EVERY call the result must equal, bit for bit, the same method evaluated in one call with the default batch limit on a fresh EagerVec, have the length of the shortest governing source, and (22 methods) equal a closed formula over the model sources.",
+         "Differential property test over a table of 60 EagerVec methods (52 with exact arithmetic, 8 whose floating-point running state is resumed exactly from the stored last value or whose inputs make every sum and quotient exact): a generated history (initial fill; steps of redundant call / every source grows / every source is truncated at a generated index and regrown with different data; starting index drawn at and below the first changed source index; write-batch limit forced to 1, 3, 17 elements or default through hook H6; windows 0, 1, 2, 5, len-1, len, len+5, usize::MAX; optional flush + re-import) is applied to stored sources of the raw and the Pco family, and after EVERY call the result must equal, bit for bit, the same method evaluated in one call with the default batch limit on a fresh EagerVec, have the length of the shortest governing source, and (22 methods) equal a closed formula over the model sources.",
          "The float methods with lossy resumable state (sma, ema, rma, rolling_average, rolling_sd, expanding_sd, rolling_ema/rma, rolling_ratio) are outside 'exact arithmetic' and are not checked. A call that errs or panics is only a violation when the from-scratch evaluation of the same inputs succeeds. Known findings excluded by construction and counted: KF-C06-1 (all_time_low with exclude_default: method not run), KF-C06-2 (first_per_index across a batch boundary: default batch limit only), KF-C06-3 (first_per_index after truncation + regrowth: its mapping only grows).",
          "differential + metamorphic property testing (incremental history vs from-scratch single call, batch-size variation) with closed-formula references (proptest)", "DESIGN.md §4 C06, §3 E4"),
  "C19": ("E4-compute", "exploration",
